@@ -36,6 +36,7 @@ import Oracle.Basic
 import S2.CellUnion
 import S2.Coverer
 import S2.CovererRegions
+import S2.CapCell
 import S2.Exact
 import S2.Pred
 namespace Oracle.C05
@@ -384,6 +385,15 @@ def modelKind (r : Reg) : Option RegionKind :=
 
 def modelRegion (r : Reg) : Option Region := (modelKind r).map regionOf
 
+/-- the model `Region` used by op `pred`: the exact-id regions and (package c05cap) the CAP region with the bit-exact
+    soft-float model of `Cap.ContainsCell` / `Cap.IntersectsCell` (`S2.CapCell.capRegion`, the value the theorems of
+    `S2Proofs.Properties.C05_Cap` are about).  Not used by op `cov`: a whole covering through the soft-float predicates
+    costs seconds per line (MaxCells up to 10^4). -/
+def modelRegionPred (r : Reg) : Option Region :=
+  match r with
+  | .cap c r2 => some (CapCell.capRegion ⟨c, r2⟩)
+  | _ => modelRegion r
+
 def parseRes? (s : String) : Option (Option CU) :=
   if s == "x" then some none else (parseCU? s).map some
 
@@ -509,7 +519,7 @@ def handlePred (ulp : Bool) (kind params sCell sSamples : String) (res : List St
           else if cT && !iT then some "contains-without-intersects"
           else none
       -- model: exact id predicates for cell / cell-union regions
-      let model : List String := match modelRegion reg with
+      let model : List String := match modelRegionPred reg with
         | some R => [showBool (R.containsCell id), showBool (R.intersectsCell id)]
         | none => res
       pure (verdictP model res prop)
